@@ -163,6 +163,11 @@ def step (d : DS) (line : String) : DS × String :=
       | some p => finish d (xmppSendRawString c (classifyUser p)) "ok"
       | none => (d, "= bad-op")
     | ["udisc"] => finish d (xmppDisconnect c) "ok"
+    | ["utls"] =>
+      if c.state ≠ .connected || c.hasTls then finish d c "rc skipped"
+      else
+        let rc : Int := if c.tlsDisabled then -2 else if c.tlsNewFail then -1 else if c.tlsStartFail then -3 else 0
+        finish d (connTlsStart c).1 s!"rc {rc}"
     | ["setflags", n] =>
       match n.toNat? with
       | some f => let (c1, rc) := setFlags c f; finish d c1 s!"rc {rc} flags {getFlags c1}"
